@@ -42,6 +42,8 @@ type SolveOpts struct {
 	Dir        string // scratch directory for scripts
 	Timeout1   int    // first-stage timeout (z3-new alone)
 	Timeout2   int    // second stage (race of all)
+	NoConj     bool   // do not try the conjunction of grouped goals first
+	Quick      bool
 	Workers    int
 	Batch      bool // send obligations with a common prefix to one incremental run first
 	CrossCheck bool // run every solver to completion and report disagreement
@@ -199,6 +201,14 @@ func Solve(vcs []*VC, opts SolveOpts, filter func(*Obligation) bool) []*Result {
 					solveBatch(g.js[0].vc, g.js, results, opts)
 					continue
 				}
+				if len(g.js) >= 4 && !opts.NoConj {
+					// the conjunction of all goals of the group first (one query instead of n when everything holds,
+					// e.g. the 170 conjuncts of an object invariant required at a call site); an `unsat` of the
+					// conjunction is an `unsat` of every member. Anything else: each member on its own.
+					if solveConj(g.js[0].vc, g.js, results, opts) {
+						continue
+					}
+				}
 				for _, j := range g.js {
 					results[j.idx] = solveOne(j.vc, j.o, j.idx, opts)
 				}
@@ -253,6 +263,47 @@ func solveBatch(vc *VC, js []struct {
 		}
 		results[j.idx] = solveOne(j.vc, j.o, j.idx, opts)
 	}
+}
+
+// solveConj poses the conjunction of the goals of obligations that share declarations, facts and path condition.
+func solveConj(vc *VC, js []struct {
+	vc  *VC
+	o   *Obligation
+	idx int
+}, results []*Result, opts SolveOpts) bool {
+	var goals []T
+	for _, j := range js {
+		if j.o.ThoroughOnly && opts.Quick {
+			return false
+		}
+		goals = append(goals, j.o.Goal)
+	}
+	co := *js[0].o
+	co.Goal = And(goals...)
+	co.Splits = nil
+	co.Watch = nil
+	for _, sliced := range []bool{true, false} {
+		file := filepath.Join(opts.Dir, fmt.Sprintf("c%05d.%v.smt2", js[0].idx, sliced))
+		if err := os.WriteFile(file, []byte(vc.ScriptOpt(&co, false, sliced)), 0o644); err != nil {
+			return false
+		}
+		raw, _, dt := runSolver(Solvers[0], opts.Timeout1*2, file)
+		if raw == "unsat" {
+			name := Solvers[0].Name + "(conj"
+			if sliced {
+				name += ",sliced"
+			}
+			name += ")"
+			for _, j := range js {
+				results[j.idx] = &Result{VC: vc, Obl: j.o, Status: "discharged", Raw: "unsat", Solver: name, TimeS: dt / float64(len(js)), PerSolver: map[string]string{Solvers[0].Name: "unsat"}, Script: file}
+			}
+			return true
+		}
+		if raw == "sat" && !sliced {
+			return false
+		}
+	}
+	return false
 }
 
 // SolveOneExported solves a single obligation (used for retries with a larger budget).
